@@ -205,7 +205,7 @@ def query_oracle(case, o):
                                  f"{o['qlabels'][k]} but P(1)={p1!r} and the draw u={float(us[k])!r} give {lab}",
                                  "C04.predict-follows-pmf"))
             break
-    if o["qlabels"] != o["qlabels2"]:
+    if "qlabels2" in o and o["qlabels"] != o["qlabels2"]:
         probs.append(Problem("property", "predict with the same seed (int / RandomState) is not reproducible",
                              "C04.predict-follows-pmf"))
     return probs
